@@ -23,6 +23,7 @@ type MRes struct {
 	F1   string `json:"f1"`
 	F2   string `json:"f2"`
 	Pol  string `json:"pol"` // none | keep | other
+	Ver  string `json:"ver"` // version part of apiVersion
 }
 
 // HRec is the abstract form of one hook of a release record.
@@ -151,9 +152,17 @@ func ParseManifest(m string) map[string]MRes {
 			F1:   str(nested(o, append(fp, "f1")...)),
 			F2:   str(nested(o, append(fp, "f2")...)),
 			Pol:  policyOf(o),
+			Ver:  verOf(str(o["apiVersion"])),
 		}
 	}
 	return out
+}
+
+func verOf(apiVersion string) string {
+	if i := strings.LastIndex(apiVersion, "/"); i >= 0 {
+		return apiVersion[i+1:]
+	}
+	return apiVersion
 }
 
 func projectRelease(r *rspb.Release) Rec {
